@@ -374,7 +374,7 @@ def shrink_failure(ctx, model, rounds=8):
 def run(ctx, br):
     rng = ctx.rng
     quick = ctx.tier == "quick"
-    n_valid, n_hazard_each, n_bad, n_prog = (110, 2, 60, 12) if quick else (1600, 20, 900, 150)
+    n_valid, n_hazard_each, n_bad, n_prog = (110, 2, 60, 12) if quick else (1300, 20, 700, 120)
     rules = run_harness([{"op": "rules"}])[0].get("rules", [])
     rule_ids = {n: i for i, n in enumerate(rules)}
 
